@@ -88,7 +88,7 @@ def rule_1(ctx):
 
 def rule_2(ctx):
     mm, fn, orig, ext = _extract(ctx)
-    deps = flow.Deps(fn)
+    deps = flow.Deps(fn, through_stores=False)
     scans = [n for n in walk_local(fn) if isinstance(n, ast.For) and any(
         isinstance(x, ast.Attribute) and x.attr == 'terms' for x in ast.walk(n.iter))]
     term_names = set()
@@ -99,10 +99,11 @@ def rule_2(ctx):
         if isinstance(n, ast.Subscript) and ast.unparse(n.value) == f'{orig}.cells' and isinstance(n.ctx, ast.Load):
             if deps.closure(names_in(n.slice)) & term_names:
                 lookups.append(n)
-    for n in lookups:
+    for k_, n in enumerate(sorted(lookups, key=flow.pos), 1):
         conds = flow.path_conditions(n)
-        guarded = any((':' in ast.unparse(c.test)) for c in conds) or any(
-            isinstance(c.test, ast.Compare) and isinstance(c.test.ops[0], ast.In) and f'{orig}.cells' in ast.unparse(c.test.comparators[0]) and c.polarity
+        guarded = any(any(isinstance(x, ast.Constant) and x.value == ':' for x in ast.walk(c.test)) for c in conds) or any(
+            isinstance(c.test, ast.Compare) and isinstance(c.test.ops[0], ast.In) and ast.unparse(c.test.comparators[0]) == f'{orig}.cells'
+            and ast.dump(c.test.left) == ast.dump(n.slice) and c.polarity
             for c in conds)
         # a filter where the work-list is built counts too
         for a in walk_local(fn):
@@ -110,9 +111,9 @@ def rule_2(ctx):
                     and names_in(a.args[0]) & term_names and isinstance(a.func.value, ast.Name) \
                     and a.func.value.id in deps.closure(names_in(n.slice)):
                 cs = flow.path_conditions(a)
-                if any(':' in ast.unparse(c.test) for c in cs):
+                if any(any(isinstance(x, ast.Constant) and x.value == ':' for x in ast.walk(c.test)) for c in cs):
                     guarded = True
-        ctx.expect(guarded, n, f'`{ast.unparse(n)}` is not used for range terms',
+        ctx.expect(guarded, n, f'term-keyed lookup #{k_} in the original cells map excludes range terms',
                    'a formula term is looked up in the cells map without excluding range terms ("A1:A2"): extracting a cell whose '
                    'formula refers to a range raises KeyError')
     stores_ranges = [a for a in walk_local(fn) if isinstance(a, ast.Assign) and any(
@@ -122,6 +123,8 @@ def rule_2(ctx):
                'extract() never fills the ranges registry of the extracted model: range references in extracted formulas cannot '
                'be materialised (each range is read as a single missing cell)')
     ctx.floor(2, 'term lookups + range registry')
+    if not lookups:
+        ctx.errors.append('C13.2: no term-keyed lookup in the original cells map found')
 
 
 def rule_3(ctx):
